@@ -27,7 +27,7 @@ META = {
                  "model-based test generation; linearisation-search trace validation by TLC",
     "design_ref": "DESIGN.md section 5 C19, appendix A.2",
     "crates": ["c19"],
-    "disabled": True,
+    "disabled": False,
 }
 
 AS_CODED_ONLY = ("M_CA_PurgeFiles_Split", "M_CA_Remove_Split", "M_FF_Fill_Late")
